@@ -69,6 +69,9 @@ fn show_text(t: &str) -> String {
 
 // ---------------------------------------------------------------- driver
 
+/// The count `m` of the `take(m)` wrapped around the lender under test (usize::MAX: none).
+static TAKE_M: std::sync::atomic::AtomicUsize = std::sync::atomic::AtomicUsize::new(usize::MAX);
+
 /// Runs one history on a fresh lender. Returns false after the first
 /// violation (the lender's state is then unknown).
 fn drive<T, L>(c: &mut Case, mk: &dyn Fn() -> Result<L, String>, expected: &[T::Owned], hist: &[usize], what: &dyn Fn() -> String) -> bool
@@ -89,6 +92,11 @@ where
             return false;
         }
     };
+    // Known finding K02 is specific: a rewound `lender::Take` re-takes the count that was
+    // left (each poll, the one answered `None` by the wrapped lender included, uses one
+    // up). A short pass that lends any other number of items is a different violation.
+    let take_m = TAKE_M.load(std::sync::atomic::Ordering::Relaxed);
+    let mut take_left = take_m;
     for p in 0..=hist.len() {
         let polls = if p < hist.len() { hist[p] } else { usize::MAX };
         let op = if p == 0 { "first_pass" } else { "pass_after_rewind" };
@@ -132,12 +140,19 @@ where
             }
             Ok(Ok(())) => {
                 if ended && i != n {
-                    let msg = if i == 0 { "no items at all" } else { "fewer items than expected" };
+                    let msg = if take_m != usize::MAX && i != n.min(take_left) {
+                        "a short pass whose length is not the one the known behaviour of lender::Take predicts"
+                    } else if i == 0 {
+                        "no items at all"
+                    } else {
+                        "fewer items than expected"
+                    };
                     c.fail(op, "mismatch", msg, &format!("{}: the pass ended after {} of {} items at {}", msg, i, n, here(i)));
                     return false;
                 }
             }
         }
+        take_left -= polled.min(take_left);
         if p < hist.len() {
             l = match catch(|| l.rewind()) {
                 Ok(Ok(l)) => l,
@@ -538,7 +553,11 @@ fn run_line_lender(c: &mut Case, fmt: Fmt, src: Src, text: &str, take: Option<us
             let mk = $mk;
             match take {
                 None => run_hists::<str, _>(c, &mk, &lines, hists, &what),
-                Some(m) => run_hists::<str, _>(c, &|| mk().map(|l| l.take(m)), &lines[..m.min(lines.len())], hists, &what),
+                Some(m) => {
+                    TAKE_M.store(m, std::sync::atomic::Ordering::Relaxed);
+                    run_hists::<str, _>(c, &|| mk().map(|l| l.take(m)), &lines[..m.min(lines.len())], hists, &what);
+                    TAKE_M.store(usize::MAX, std::sync::atomic::Ordering::Relaxed);
+                }
             }
         }};
     }
@@ -636,7 +655,9 @@ fn run_fii(c: &mut Case, kind: Fii, n: usize, take: Option<usize>, pc: PollClass
                 Some(m) => {
                     let e = &exp[..m.min(exp.len())];
                     let h = filter_hists(histories(e.len(), false), pc);
-                    run_hists::<$t, _>(c, &|| mk().map(|l| l.take(m)), e, &h, &what)
+                    TAKE_M.store(m, std::sync::atomic::Ordering::Relaxed);
+                    run_hists::<$t, _>(c, &|| mk().map(|l| l.take(m)), e, &h, &what);
+                    TAKE_M.store(usize::MAX, std::sync::atomic::Ordering::Relaxed);
                 }
             }
         }};
